@@ -2,7 +2,7 @@
 From PV Require Export Model.ComponentsX Model.EnginesX Model.SelectX Model.SimulatorX.
 From PV Require Model.ConnectorX.  (* C10; qualified *)
 From PV Require Export Model.CatalogX.
-From PV Require Export Model.ComponentsX Model.EnginesX Model.SelectX Model.PolarX.
+From PV Require Export Model.PolarX.
 From PV Require Model.RemoteJob.   (* not exported: its short names (step, run, status, ...) stay qualified *)
 From PV Require Export Model.LocalJobX.
 From PV Require Export Model.DetectorX.
@@ -11,7 +11,7 @@ From PV Require Export Model.PayloadX.
 From PV Require Export Model.JobGroupX.
 From PV Require Export Model.TransformX.
 From PV Require Export Model.DecompX.
-From PV Require Export Model.ComponentsX Model.EnginesX Model.SourceX.
+From PV Require Export Model.SourceX.
 
 Definition dispatch (f : Z) (x : sx) : sx :=
   match f with
